@@ -79,6 +79,13 @@ func runC02(r *Run) {
 // C03: every document the CBE decoder+rules accept converts to CTE that the CTE decoder+rules
 // accept with the same data, and back; every accepted CTE document without custom text converts
 // to CBE with the same data apart from comments.
+// CBE documents that once converted wrongly (see known-findings.txt)
+var c03Corpus = []string{
+	"81009a7a0000007b0000007c00000000009b",       // zero-value date, time, timestamp (fix 559524b)
+	"81007ff10279317b000000014c9c9b71fcc62ee1",   // zero-value time as a record-type key
+	"81009a7b00000001997b000000019b9b",           // zero-value time as a map key
+}
+
 func runC03(r *Run) {
 	cfg := configuration.New()
 	r.each(func(idx int, rng *Rng) {
@@ -119,7 +126,11 @@ func runC03(r *Run) {
 				return
 			}
 			what := "encoder-output"
-			if mediaMutated {
+			if idx/3 < len(c03Corpus) && idx%3 == 0 {
+				// minimised past failures first
+				doc, _ = unhx(c03Corpus[idx/3])
+				what = "corpus"
+			} else if mediaMutated {
 				what = "media-type-edge"
 			} else if idx%3 == 1 && len(doc) > 3 {
 				m := cloneBytes(doc)
